@@ -481,7 +481,7 @@ class SimDisk:
         if fault is not None and not (fault[0] == "error" and phase != "before"):
             kind = fault[0]
             self.fired[kind] = self.fired.get(kind, 0) + 1
-            self.fired_at.append(dict(rec))
+            self.fired_at.append({**self.context(), **rec})
             self.log.add("fault", n=n, fault=kind, arg=(fault[1] if len(fault) > 1 else None))
             if kind == "crash":
                 raise SimCrash(f"crash at fs point {n} ({op}:{phase} {name})")
